@@ -138,15 +138,47 @@ type verifStompState struct {
 	sub   *stomp.Subscription
 	acks  []*stomp.Message
 	unsub bool
+	// connection model (set by harnesses that need it): like go-stomp, ONE process loop serves both the
+	// connection's bounded write channel (Ack, Send, Unsubscribe requests) and the inbound MESSAGE frames,
+	// which it hands to the subscription's bounded channel with a BLOCKING send. Capacities are tiny here
+	// (go-stomp: 20 / 20 / 16); the shape is the same.
+	loop    bool
+	writeCh chan *stomp.Message
+	inbound chan *stomp.Message
+}
+
+func verifStompProcessLoop(st *verifStompState) {
+	for {
+		select {
+		case m := <-st.writeCh:
+			st.acks = append(st.acks, m)
+		case m, ok := <-st.inbound:
+			if !ok {
+				return
+			}
+			st.sub.C <- m
+		}
+	}
 }
 
 var verifStomp *verifStompState
 
 func verifStompSubscribe(c *stomp.Conn, dest string, ack stomp.AckMode, _ interface{}) (*stomp.Subscription, error) {
+	if verifStomp.loop {
+		verifStomp.sub = &stomp.Subscription{C: make(chan *stomp.Message, 1)}
+		verifStomp.writeCh = make(chan *stomp.Message, 1)
+		verifStomp.inbound = make(chan *stomp.Message, 16)
+		go verifStompProcessLoop(verifStomp)
+		return verifStomp.sub, nil
+	}
 	verifStomp.sub = &stomp.Subscription{C: make(chan *stomp.Message, 16)}
 	return verifStomp.sub, nil
 }
 func verifStompAck(c *stomp.Conn, m *stomp.Message) error {
+	if verifStomp.loop {
+		verifStomp.writeCh <- m // blocks while the connection's write channel is full
+		return nil
+	}
 	verifStomp.acks = append(verifStomp.acks, m)
 	return nil
 }
@@ -295,5 +327,34 @@ func VerifC07_TwoSubscribers() {
 	verifBlockUntil(func() bool { return len(logB) >= wantB+1 }) // a lost message is a deadlock here
 	verifAssert(len(logB) == wantB+1 && len(logA) == wantA, "the other subscriber keeps receiving after an Unsubscribe")
 	verifAssert(subB.Unsubscribe() == nil, "unsubscribe beta")
+	verifReach("end")
+}
+
+func init() {
+	verifHarnesses["VerifC05_StompBurst"] = VerifC05_StompBurst
+}
+
+// C05 "never blocks forever ... keeps serving later well-formed messages", STOMP subscriber: a burst of n
+// well-formed messages that outruns the handler, over a connection whose one process loop serves the bounded
+// write channel (acknowledgements) and the inbound frames (blocking hand-over to the bounded subscription
+// channel). Every message is handled and acknowledged: the subscriber must never wait for the connection in
+// a way that keeps it from draining its subscription channel.
+func VerifC05_StompBurst() {
+	verifStomp = &verifStompState{loop: true}
+	pf := NewFProtocolFactory(thrift.NewTBinaryProtocolFactoryDefault())
+	handled := 0
+	handler := func(ctx FContext, m *verifMsg) error {
+		handled++
+		return nil
+	}
+	tr := newStompFSubscriberTransport(&stomp.Conn{}, "", false)
+	verifAssert(tr.Subscribe("topic", verifRecv(pf, "op", handler)) == nil, "subscribe")
+	n := 3 + verifParam()
+	for i := 0; i < n; i++ {
+		verifStomp.inbound <- &stomp.Message{Body: verifScopeFrame(pf, "op", "b", "v")}
+	}
+	// a subscriber stuck on the connection shows as a deadlock here
+	verifBlockUntil(func() bool { return handled == n && len(verifStomp.acks) == n })
+	verifAssert(handled == n && len(verifStomp.acks) == n, "every message of the burst is handled and acknowledged")
 	verifReach("end")
 }
